@@ -405,12 +405,12 @@ func cmdGraph(args []string) {
 			end = len(results)
 		}
 		var b strings.Builder
-		b.WriteString("From Godi Require Import Base GraphSpec.\n")
+		b.WriteString("From Coq Require Import NArith.\nFrom Godi Require Import Base GraphSpec.\n")
 		for _, c := range results[start:end] {
 			if c.Crash != "" {
 				continue
 			}
-			fmt.Fprintf(&b, "Eval vm_compute in (%d, check_graph %d %s\n  %s).\n", c.ID, c.NPool, gList(c.Ops, GOp.G), gList(c.Obs, GObs.G))
+			fmt.Fprintf(&b, "Eval vm_compute in (%d%%N, check_graph %d %s\n  %s).\n", c.ID, c.NPool, gList(c.Ops, GOp.G), gList(c.Obs, GObs.G))
 		}
 		os.WriteFile(fmt.Sprintf("%s/cases_%s_%d.v", *out, tag, nfiles), []byte(b.String()), 0o644)
 		nfiles++
